@@ -133,6 +133,15 @@ class Ctx:
         self.samples = []
         self.extra = {}
         self.item_index = 0
+        self.matchers = []  # [(finding id, predicate on a violation record)]
+
+    def load_matchers(self, mod):
+        fns = getattr(mod, "MATCHERS", {})
+        self.matchers = [
+            (k["id"], fns[k["matcher"]])
+            for k in load_known()
+            if k.get("property") == self.prop and k.get("status") == "known" and k.get("matcher") in fns
+        ]
 
     # counters -------------------------------------------------------------
     def add(self, name, k=1):
@@ -158,9 +167,9 @@ class Ctx:
 
     # violations -----------------------------------------------------------
     def fail(self, clause, case, observed=None, expected=None, snippet=None, **kw):
-        self.viol_count[clause] = self.viol_count.get(clause, 0) + 1
         kept = self.viol.setdefault(clause, [])
-        if len(kept) >= MAX_KEPT_PER_CLAUSE:
+        if len(kept) >= MAX_KEPT_PER_CLAUSE and not self.matchers:
+            self.viol_count[clause] = self.viol_count.get(clause, 0) + 1
             return
         rec = {
             "property": self.prop,
@@ -173,7 +182,15 @@ class Ctx:
         }
         for k, v in kw.items():
             rec[k] = jsonable(v)
-        kept.append(rec)
+        # a listed known finding never occupies one of the kept slots, so that a different
+        # violation of the same clause is still reported
+        for fid, fn in self.matchers:
+            if fn(rec):
+                self.known_finding(fid, rec["case"])
+                return
+        self.viol_count[clause] = self.viol_count.get(clause, 0) + 1
+        if len(kept) < MAX_KEPT_PER_CLAUSE:
+            kept.append(rec)
 
     def known_finding(self, fid, what):
         self.known[fid] = self.known.get(fid, 0) + 1
@@ -229,6 +246,7 @@ def _worker_init(modname, tier, seed):
 def _worker_run(chunk):
     mod, tier, seed = _W["mod"], _W["tier"], _W["seed"]
     ctx = Ctx(mod.ID)
+    ctx.load_matchers(mod)
     results = []
     for idx, item in chunk:
         ctx.item_index = idx
@@ -314,6 +332,7 @@ def run_property(pid, tier, seed, jobs=None, write=True):
     mod = load_prop(pid)
     items = mod.work(tier, seed)
     total = Ctx(pid)
+    total.load_matchers(mod)
     results = []
     jobs = jobs or NCPU
     chunks = _chunks(items, jobs * 8)
@@ -346,24 +365,10 @@ def run_property(pid, tier, seed, jobs=None, write=True):
 
     # --- known findings / violations ------------------------------------
     known = [k for k in load_known() if k.get("property") == pid]
-    matchers = getattr(mod, "MATCHERS", {})
     reported, kf_lines = [], {}
     for clause in sorted(total.viol):
         recs = sorted(total.viol[clause], key=lambda r: r["item_index"])
-        for rec in recs[:MAX_KEPT_PER_CLAUSE]:
-            hit = None
-            for k in known:
-                if k.get("status") != "known":
-                    continue
-                m = matchers.get(k.get("matcher"))
-                if m is not None and m(rec):
-                    hit = k
-                    break
-            if hit is not None:
-                kf_lines.setdefault(hit["id"], hit)
-                total.known[hit["id"]] = total.known.get(hit["id"], 0) + 1
-            else:
-                reported.append(rec)
+        reported.extend(recs[:MAX_KEPT_PER_CLAUSE])
     # findings recognised inside run() (ctx.known_finding) must be listed too
     listed = {k["id"]: k for k in known if k.get("status") == "known"}
     for fid in list(total.known):
@@ -467,6 +472,7 @@ def replay(path):
     tier, seed = rec.get("tier", "quick"), rec.get("seed", 0)
     _worker_init(mod.__name__, tier, seed)
     ctx = Ctx(pid)
+    ctx.load_matchers(mod)
     items = mod.work(tier, seed)
     idx = rec["item_index"]
     if idx >= len(items):
